@@ -6,7 +6,7 @@ def run(tier, seed):
     q = tier == "quick"
     return _func.run(
         "C03", tier, seed, emitters=[("MC_Loss", _loss.MC % ("C11L", 8), "MC_Loss_C03_spinn"), ("MC_Loss", _loss.MC % ("C12", 8), "MC_Loss_C03_obsparams"), ("MC_Loss", _loss.MC % ("C03", 4 if q else 8), "MC_Loss_C03")],
-        extras=lambda s: [], prepare=_loss.prepare_filtered(("dyn",), 400 if q else 0), sig=_loss.sig,
+        extras=lambda s: [], prepare=_loss.prepare_filtered(("dyn",), 400 if q else 0, always=lambda s: s.get("rshape") == "scalar" and s.get("b", 1) >= 2), sig=_loss.sig,
         rule="TLC enumerates loss kind x residual components 1..3 x scalar/per-component weights x batch size x every subset of the other "
              "configured terms x twin (base, permuted batch, two halves, re-weighted) x evaluate/__call__ x dynamic loss absent; each "
              "structure is instantiated with seeded polynomial networks / residual maps / integer batches and evaluated by the real loss; "
